@@ -1,7 +1,7 @@
 (* Brew.v — model of the cross-validation bookkeeping of mokapot.brew (C02, C05, C11):
    OnDiskPsmDataset._split, the row -> fold-model map, make_train_sets, _predict.
    Definitions only. *)
-From Mokaverif Require Import Model.Base Model.Tdc Model.Calibrate.
+From Mokaverif Require Import Model.Base Model.Tdc Model.Calibrate Model.PinCols.
 Open Scope nat_scope.
 
 (* ---------- _split ---------- *)
@@ -112,15 +112,8 @@ Definition bw_subset_plan (cap : option nat) (train_sizes : list nat) : result (
   end.
 
 (* ---------- _predict ---------- *)
-Fixpoint bw_chunks_aux {A} (fuel c : nat) (l : list A) : list (list A) :=
-  match fuel with
-  | O => []
-  | S f => match l with
-           | [] => []
-           | _ => firstn c l :: bw_chunks_aux f c (skipn c l)
-           end
-  end.
-Definition bw_chunks {A} (c : nat) (l : list A) : list (list A) := bw_chunks_aux (length l) c l.
+(* utils.create_chunks / chunked reading: same function as in Model/PinCols.v *)
+Definition bw_chunks {A} (c : nat) (l : list A) : list (list A) := pc_chunks c l.
 
 (* a row of the table during prediction: original index, fold (= model index), target flag *)
 Definition bw_prow := (nat * (nat * bool))%type.
